@@ -27,7 +27,9 @@ What is demanded (only where the property statement gives an expectation):
   * any other exception type is a violation.
 """
 import json
+import os
 import random
+import signal
 import multiprocessing as mp
 from collections import OrderedDict
 from fractions import Fraction
@@ -553,8 +555,51 @@ def _canon(c):
             c["mode"], bool(c.get("allow_duplicates")))
 
 
+class _Timeout(BaseException):
+    """Raised by the interval timer; BaseException so that chempy's own `except Exception` cannot eat it."""
+
+
+def _alarm(signum, frame):
+    raise _Timeout()
+
+
+def _kill_children():
+    """CBC runs as a child process of the worker; after a time-out it must not be left spinning."""
+    me = os.getpid()
+    for pid in os.listdir("/proc"):
+        if not pid.isdigit():
+            continue
+        try:
+            with open("/proc/%s/stat" % pid) as fh:
+                ppid = int(fh.read().rsplit(")", 1)[1].split()[1])
+            if ppid == me:
+                os.kill(int(pid), signal.SIGKILL)
+        except (OSError, ValueError, IndexError):
+            pass
+
+
+TIMEOUT = float(os.environ.get("VERIF_C02_TIMEOUT", "90"))   # seconds per call; the slowest call observed on the unmodified tree takes < 10 s
+
+
+def run_case_guarded(case):
+    """run_case with a wall-clock guard: the property says the function answers or raises ValueError, so a
+    call that does neither within TIMEOUT seconds (CBC can enumerate for ever on an unbounded integer
+    program) is recorded as a violation instead of hanging the checker."""
+    old = signal.signal(signal.SIGALRM, _alarm)
+    signal.setitimer(signal.ITIMER_REAL, TIMEOUT)
+    try:
+        return run_case(case)
+    except _Timeout:
+        _kill_children()
+        return False, "neither an answer nor a refusal within %.0f s" % TIMEOUT, dict(
+            dim=None, feasible=None, outcome="timeout", presence_ok=True)
+    finally:
+        signal.setitimer(signal.ITIMER_REAL, 0)
+        signal.signal(signal.SIGALRM, old)
+
+
 def _work(case):
-    holds, detail, info = run_case(case)
+    holds, detail, info = run_case_guarded(case)
     return case, holds, detail, info
 
 
@@ -610,5 +655,5 @@ def run(tier, seed):
 
 
 def replay(case):
-    holds, detail, _ = run_case(case["inputs"])
+    holds, detail, _ = run_case_guarded(case["inputs"])
     return holds, detail
